@@ -196,3 +196,32 @@ _pb("C08", "contract-based deductive verification (pyvc) of the five counting bl
     "has changed -- the 'sum, never only the last one seen' clause of the property (this obligation fails with a counter-model on "
     "the pre-fix code). The conservation equations over whole grammars are bounded only.",
     "block contracts proved, conservation equations bounded; 'other'")
+
+_pb("C14", "contract-based deductive verification (pyvc) of the loop bodies of _uncollapse_unary_chains and _collapse_unary_chains as block contracts (allocation, label split/concatenation, re-linking, frame); bounded stand-in for the round trips and for binarization",
+    "Uncollapse step: a fresh node is inserted between `tree` and its former parent, label(unary) + '+' + label'(tree) is "
+    "the old label and label(unary) has no '+', every other field is copied, nothing else changes, links stay consistent and "
+    "`top` stays the first node inserted (so the topmost node is returned). Collapse step: the label becomes "
+    "label(tree) + '+' + label(only child), the child's ordered children become tree's children and point to it, a token "
+    "child's num/word/lemma are pulled up, nothing else changes. Both on an arbitrary heap, for every label string. The "
+    "composition over iterations and recursion, binarization and the round trips are bounded only.",
+    "block contracts proved for one iteration of each loop, the property itself bounded; 'other'")
+PROPS["C16"]["technique"] = ("contract-based deductive verification (pyvc VCs from the real AST, z3) of gap_degree_node, has_gaps, gap_type, "
+                             "terminal_blocks, gap_degree, SentenceCount.run, PosTags.run, GapDegree.run + bounded stand-in for the printed "
+                             "reports, three-way agreement, disco_order")
+PROPS["C16"]["explanation"] = ("Proved for all inputs: gap_degree_node == set-based gap degree, has_gaps, gap_type classification, "
+                               "terminal_blocks partitions T(node) into its maximal runs in order with |blocks| = gap degree + 1, "
+                               "gap_degree is the maximum over the nodes in preorder, the counting tasks add exactly one per sentence / "
+                               "token tag / gap degree class (loop invariants and recursive count specs, no bound). The contract of "
+                               "trees.preorder is assumed at call sites; trees.terminals and trees.children are verified against their "
+                               "characterisations under C19. Printed reports, the three-way agreement and disco_order are bounded only.")
+PROPS["C19"]["technique"] = ("contract-based deductive verification (pyvc, read-only heap with ghost depth/anc/pos/rank) of terminals, children, "
+                             "right_sibling, left_sibling, dominance, lca + lemmas (siblings inverse, lca lowest); bounded stand-in for "
+                             "preorder/postorder/levels/numbering and for the ghost theory")
+PROPS["C19"]["explanation"] = ("terminals (only tokens below the node, strictly increasing numbers, exactly as many as there are; recursion with a "
+                               "decreasing rank; sorted() modelled as an ordered permutation) and children (a permutation of the stored child "
+                               "list in strict order of least token) are proved against these characterisations; right_sibling/left_sibling "
+                               "(neighbours in the ordered child list, mutually inverse), dominance (parent chain to the root, with termination) "
+                               "and lca (none iff one dominates the other; otherwise the lowest common dominator) are proved for every "
+                               "well-formed tree of any size over the contracts of children/terminals. preorder, postorder, levels and the "
+                               "export numbering are bounded only; the ghost theory of well-formed trees is validated on enumerated trees.")
+PROPS["C19"]["level_text"] = "proof for terminals/children/siblings/dominance/lca, bounded stand-in for the rest; 'other'"
